@@ -379,5 +379,66 @@ fn generators_compaction_fold(recver: &mut FrameReceiver) -> (r: (HashMap<String
 }
 //@@ end
 
+
+// ================= C17, commands: "the latest definition of every command ... historical calls are not re-executed" --
+// the start-up loop of commands::serve registers every historical <name>.define, in order, and does nothing else
+pub enum CmdEv { Define(Frame, Seq<char>), Other }
+pub struct Cx { pub ghost log: Seq<CmdEv> }
+#[verifier::external_body] pub struct Engine { _p: () }
+#[verifier::external_body] pub struct StoreC { _p: () }
+#[verifier::external_body] pub struct CommandMap { _p: () }
+// handle_define as the loop sees it (registration itself is nu-engine work, not decided here)
+#[verifier::external_body]
+pub fn handle_define(Tracked(cx): Tracked<&mut Cx>, frame: &Frame, name: &str, base_engine: &Engine, store: &StoreC, commands: &mut CommandMap)
+    ensures final(cx).log == old(cx).log.push(CmdEv::Define(*frame, name@)),
+{ unimplemented!() }
+pub open spec fn defines_of(fs: Seq<Frame>) -> Seq<CmdEv> decreases fs.len() {
+    if fs.len() == 0 { Seq::empty() }
+    else if has_suffix(fs.last().topic@, ".define"@) { defines_of(fs.drop_last()).push(CmdEv::Define(fs.last(), strip(fs.last().topic@, ".define"@))) }
+    else { defines_of(fs.drop_last()) }
+}
+//@@ slice file=src/commands/serve.rs fn=serve name=commands_startup_fold
+//@@ from: while let Some(frame) = recver.recv()
+//@@ from_nth: 0
+//@@ through_block
+//@@ strip: await
+//@@ after_all: handle_define( ==> Tracked(cx),
+//@@ rewrite: &mut commands ==> commands
+//@@ loop_spec: while let Some(frame) = recver.recv()
+    invariant_except_break
+        rem(recver) == all.subrange(n, all.len() as int),
+    invariant
+        0 <= n <= all.len(), all == rem(old(recver)),
+        forall|i: int| 0 <= i < n ==> (#[trigger] all[i]).topic@ != "xs.threshold"@,
+        cx.log =~= old(cx).log + defines_of(all.subrange(0, n)), //# restart.commands.every_historical_define_in_order_nothing_else
+    ensures
+        prefix_upto_threshold(all, n),
+    decreases all.len() - n,
+//@@ loop_top: while let Some(frame) = recver.recv()
+    broadcast use axiom_pat_str;
+    proof {
+        assert(frame == all[n]);
+        assert(all.subrange(n, all.len() as int).drop_first() =~= all.subrange(n + 1, all.len() as int));
+    }
+//@@ after?: if frame.topic == "xs.threshold" { break; }
+    proof {
+        assert(all.subrange(0, n + 1).drop_last() =~= all.subrange(0, n));
+        assert(all.subrange(0, n + 1).last() == all[n]);
+        n = n + 1;
+    }
+//@@ header
+fn commands_startup_fold(recver: &mut FrameReceiver, base_engine: Engine, store: StoreC, commands: &mut CommandMap, Tracked(cx): Tracked<&mut Cx>) -> (r: Ghost<int>)
+    ensures
+        prefix_upto_threshold(rem(old(recver)), r@)
+            && final(cx).log =~= old(cx).log + defines_of(rem(old(recver)).subrange(0, r@)), //# restart.commands.every_historical_define_in_order_nothing_else
+{
+    let ghost all = rem(recver);
+    let ghost mut n: int = 0;
+    proof { assert(all.subrange(0, 0) =~= Seq::<Frame>::empty()); assert(cx.log + Seq::<CmdEv>::empty() =~= cx.log); }
+//@@ epilogue
+    Ghost(n)
+}
+//@@ end
+
 } // verus!
 fn main() {}
